@@ -9,6 +9,7 @@ the harness' oracles only (DESIGN.md, C13).
 -/
 import EdxmlProps.Lemmas.Numerals
 import EdxmlProps.C03
+import EdxmlProps.Lemmas.Calendar
 import Mathlib.Tactic.IntervalCases
 namespace EdxmlProps.C13
 open Edxml Edxml.Gate Edxml.Norm
@@ -217,5 +218,75 @@ example : normalize "hex:2" (.str "AbCd") = .ok "abcd" := by decide +kernel
 example : normalize "datetime" (.datetime 2020 1 1 1 0 0 0 (some 120)) = .ok "2019-12-31T23:00:00.000000Z" := by
   decide +kernel
 example : accepts "number:decimal:5:2:signed" ⟨false, false, true, none⟩ "-1.50" = true := by decide +kernel
+
+/-! ### datetime: conversion to UTC -/
+
+/-- C13: normalising a datetime that carries a UTC offset yields the UTC notation of the same
+instant: same minute since the epoch (seconds and microseconds are carried over) -/
+theorem normDatetime_preserves_instant (y mo d h mi s us : Nat) (o : Int) (str : String)
+    (hn : normDatetime (.datetime y mo d h mi s us (some o)) = .ok str) :
+    ∃ y' mo' d' h' mi' : Nat, str = formatUtc y' mo' d' h' mi' s us ∧ 1000 ≤ y' ∧ y' ≤ 9999 ∧ 1 ≤ mo' ∧ mo' ≤ 12 ∧
+      1 ≤ d' ∧ d' ≤ 31 ∧ h' < 24 ∧ mi' < 60 ∧
+      instantMin y' mo' d' h' mi' = instantMin y mo d h mi - o := by
+  simp only [normDatetime] at hn
+  generalize hT : (daysFromCivil (y : Int) (mo : Int) (d : Int) * 24 + (h : Int)) * 60 + (mi : Int) - o = total at hn
+  rw [Int.fdiv_eq_ediv_of_nonneg _ (by decide), Int.fmod_eq_emod_of_nonneg _ (by decide)] at hn
+  generalize hC : civilFromDays (total / 1440) = c at hn
+  obtain ⟨y', mo', d'⟩ := c
+  simp only at hn
+  split at hn
+  · rename_i hg
+    simp only [Bool.and_eq_true, decide_eq_true_eq] at hg
+    have hdays : -719468 ≤ total / 1440 := by
+      have := civilFromDays_early (total / 1440)
+      rw [hC] at this
+      simp only at this
+      omega
+    have hr := civilFromDays_range (total / 1440) hdays
+    have hb := daysFromCivil_civilFromDays (total / 1440) hdays
+    rw [hC] at hr hb
+    simp only at hr hb
+    simp only [Out.ok.injEq] at hn
+    refine ⟨y'.toNat, mo'.toNat, d'.toNat, (total % 1440).toNat / 60, (total % 1440).toNat % 60, hn.symm, ?_, ?_, ?_, ?_, ?_, ?_, ?_, ?_, ?_⟩
+    any_goals omega
+    simp only [instantMin]
+    have e1 : ((y'.toNat : Nat) : Int) = y' := by omega
+    have e2 : ((mo'.toNat : Nat) : Int) = mo' := by omega
+    have e3 : ((d'.toNat : Nat) : Int) = d' := by omega
+    rw [e1, e2, e3, hb, hT]
+    omega
+  · cases hn
+
+
+/-- C13: a valid UTC date and time (offset zero) is normalised to its own notation: conversion to
+UTC changes nothing, so a naive datetime (taken as UTC) and the same datetime marked as UTC agree -/
+theorem normDatetime_utc_fixed (y mo d h mi s us : Nat) (hy : 1000 ≤ y ∧ y ≤ 9999)
+    (hv : validDate y mo d) (hh : h < 24) (hmi : mi < 60) :
+    normDatetime (.datetime y mo d h mi s us (some 0)) = .ok (formatUtc y mo d h mi s us) ∧
+    normDatetime (.datetime y mo d h mi s us none) = .ok (formatUtc y mo d h mi s us) := by
+  constructor
+  · simp only [normDatetime]
+    rw [Int.fdiv_eq_ediv_of_nonneg _ (by decide), Int.fmod_eq_emod_of_nonneg _ (by decide)]
+    generalize hD : daysFromCivil (y : Int) (mo : Int) (d : Int) = D
+    have h1 : ((D * 24 + (h : Int)) * 60 + (mi : Int) - 0) / 1440 = D := by omega
+    have h2 : ((D * 24 + (h : Int)) * 60 + (mi : Int) - 0) % 1440 = (h : Int) * 60 + mi := by omega
+    rw [h1, h2, ← hD, civilFromDays_daysFromCivil y mo d (by omega) hv]
+    simp only
+    have hg : (decide ((1000 : Int) ≤ (y : Int)) && decide ((y : Int) ≤ 9999)) = true := by
+      simp only [Bool.and_eq_true, decide_eq_true_eq]; omega
+    rw [if_pos hg]
+    have e1 : ((h : Int) * 60 + (mi : Int)).toNat = h * 60 + mi := by omega
+    rw [e1]
+    have e2 : (h * 60 + mi) / 60 = h := by omega
+    have e3 : (h * 60 + mi) % 60 = mi := by omega
+    simp only [e2, e3, Int.toNat_natCast]
+  · simp only [normDatetime]
+    rw [if_pos (by omega)]
+
+/-- a date and an offset for which the theorem above is not vacuous: 2020-02-29T23:30+02:00 -/
+example : normDatetime (.datetime 2020 2 29 23 30 5 7 (some 120)) = .ok "2020-02-29T21:30:05.000007Z" := by decide +kernel
+example : normDatetime (.datetime 2020 3 1 0 30 5 7 (some 120)) = .ok "2020-02-29T22:30:05.000007Z" := by decide +kernel
+example : validDate 2020 2 29 ∧ ¬ validDate 2021 2 29 := by
+  unfold validDate daysInMonth leapYear; decide
 
 end EdxmlProps.C13
